@@ -256,12 +256,107 @@ pub fn weight(r: &mut Rng, n: usize, thorough: bool, out: &mut Out) {
 
 pub const GROWTH_CAP: usize = 1 << 16;
 
+thread_local! {
+    /// the growth cap in force (raised for the cases that are about values of 2^16 and more elements)
+    static CAP: std::cell::Cell<usize> = std::cell::Cell::new(GROWTH_CAP);
+}
+
 fn too_big(v: &Value) -> bool {
+    let cap = CAP.with(|c| c.get());
     match v {
         Value::Int(_) => false,
-        Value::Bytes(b) => b.len() > GROWTH_CAP,
-        Value::Vector(vs) => vs.len() > GROWTH_CAP,
+        Value::Bytes(b) => b.len() > cap,
+        Value::Vector(vs) => vs.len() > cap,
     }
+}
+
+/// `run_line` with the growth cap raised to `cap` elements
+pub fn run_line_cap(ops: &[OpCode], heap: &HashMap<u16, Value>, cap: usize) -> Option<(String, String)> {
+    CAP.with(|c| c.set(cap));
+    let r = run_line(ops, heap);
+    CAP.with(|c| c.set(GROWTH_CAP));
+    r
+}
+
+/// Values of exactly 2^16, 2^16 + 1, 2^16 + 2 and 2^17 elements (lengths that do not fit the u16 of an index operand),
+/// built by doubling, under every instruction that takes a length or an index: the result is reduced to a length or
+/// an element so that the lines stay short.
+pub fn big_value_cases() -> Vec<Vec<OpCode>> {
+    use OpCode::*;
+    let pi = |n: u32| PushI(ethnum::U256::from(n));
+    let mut out: Vec<Vec<OpCode>> = vec![];
+    for (extra, doublings) in [(0u32, 16u16), (1, 16), (2, 16), (0, 17), (3, 8)] {
+        let len = (1u32 << doublings) + extra;
+        let top = len.min(65535);
+        let vec_build = |ops: &mut Vec<OpCode>| {
+            ops.extend([pi(7), VEmpty, VPush, Loop(doublings, 2), Dup, VAppend]);
+            for k in 0..extra {
+                ops.extend([pi(100 + k), VCons]);
+            }
+        };
+        let byt_build = |ops: &mut Vec<OpCode>| {
+            ops.extend([PushB(vec![5]), Loop(doublings, 2), Dup, BAppend]);
+            for k in 0..extra {
+                ops.extend([pi(200 + k), BCons]);
+            }
+        };
+        for (b, e) in [(0u32, 1u32), (1, 4), (0, 65535), (65535, 65535), (3, 2), (0, top), (top.saturating_sub(1), top), (extra, extra + 2)] {
+            let mut v = vec![pi(e), pi(b)];
+            vec_build(&mut v);
+            v.extend([VSlice, VLength]);
+            out.push(v);
+            let mut v = vec![pi(0), pi(e), pi(b)];
+            vec_build(&mut v);
+            v.extend([VSlice, VRef]);
+            out.push(v);
+            let mut v = vec![pi(e), pi(b)];
+            byt_build(&mut v);
+            v.extend([BSlice, BLength]);
+            out.push(v);
+        }
+        for idx in [0u32, 1, extra, 255, 256, 65535, top.saturating_sub(1)] {
+            let mut v = vec![pi(idx)];
+            vec_build(&mut v);
+            v.push(VRef);
+            out.push(v);
+            let mut v = vec![pi(idx)];
+            byt_build(&mut v);
+            v.push(BRef);
+            out.push(v);
+            let mut v = vec![pi(idx), pi(42), pi(idx)];
+            vec_build(&mut v);
+            v.extend([VSet, VRef]);
+            out.push(v);
+            let mut v = vec![pi(idx), pi(42), pi(idx)];
+            byt_build(&mut v);
+            v.extend([BSet, BRef]);
+            out.push(v);
+        }
+        let mut v = vec![];
+        vec_build(&mut v);
+        v.push(VLength);
+        out.push(v);
+        let mut v = vec![];
+        byt_build(&mut v);
+        v.push(BLength);
+        out.push(v);
+        for n in [0u16, 1, 255, 65535] {
+            let mut v = vec![];
+            byt_build(&mut v);
+            v.push(Hash(n));
+            out.push(v);
+            // message of that length under SigEOk (operands: message on top, then the key, then the signature)
+            let mut v = vec![PushB(vec![1u8; 64]), PushB(vec![2u8; 32])];
+            byt_build(&mut v);
+            v.push(SigEOk(n));
+            out.push(v);
+        }
+        let mut v = vec![];
+        byt_build(&mut v);
+        v.push(BtoI);
+        out.push(v);
+    }
+    out
 }
 
 pub enum RunOut {
@@ -532,6 +627,19 @@ pub fn exec(r: &mut Rng, n: usize, thorough: bool, out: &mut Out) {
             alloc_fact(out);
         }
     }
+    for ops in big_value_cases() {
+        if let Some(l) = run_line_cap(&ops, &heap0, 1 << 18) {
+            out.emit2(l);
+        }
+    }
+    // the standard covenants as the library builds them, against the programs the theorems of Props/C04 are about
+    for i in 0..6u8 {
+        let pk = tmelcrypt::Ed25519PK(tmelcrypt::hash_keyed(b"stdpk", [i]).0);
+        let t = |c: melvm::Covenant| catch_unwind(AssertUnwindSafe(|| format!("ok {}", hxd(&c.to_bytes())))).unwrap_or_else(|_| "panic".into());
+        out.emit(&format!("std new {}", hxd(&pk.0)), &t(melvm::Covenant::std_ed25519_pk_new(pk)));
+        out.emit(&format!("std legacy {}", hxd(&pk.0)), &t(melvm::Covenant::std_ed25519_pk_legacy(pk)));
+    }
+    out.emit("std true 00", &format!("ok {}", hxd(&melvm::Covenant::always_true().to_bytes())));
     for _ in 0..n {
         let ops = vmgen::mixed_program(r);
         let heap = rand_heap(r);
